@@ -41,9 +41,9 @@ ASSUMPTIONS = ['wavelengths > 0 and strictly increasing, values >= 0, temperatur
                'comparison tolerance 1e-12 relative; Planck arguments hc/(lambda k T) in [0.05, 50]']
 RULE = ('all 49+ name pairs and all 64 triples of wavelength units; all 27 flux triples at random (flux, wave); Spectrum.to '
         'chains of length <= 6 over random unit sequences (density and unitless, random upper/lower case, closed chains '
-        'favoured) observed after every step; Spectrum.sample(points, waveunit) for all 16 wave-unit pairs x {None, photlam, flam, wlam} (own grid and interior/outside points; spectrum untouched); planck_radiance/exitance, Blackbody (+ to-chain, + sample), vegaflux in '
+        'favoured) observed after every step; Spectrum.sample(points, waveunit) for all 16 wave-unit pairs x {None, photlam, flam, wlam} (own grid and interior/outside points; spectrum untouched); planck_radiance/exitance, Blackbody (+ to-chain, + sample in its own and in other wave units), Blackbody.vegamag stars in every (wave, value) unit pair, converted with to-chains and sampled in every wave unit (compared with the SI reference vegaflux*planck_exitance ratio, a star built directly in the target units and a fresh star), integer/list/tuple inputs and scalar/list sample points, vegaflux in '
         'all unit pairs; refused operations (unknown unit, None value unit -> flux); '
-        'non-trivial = at least one conversion between two different units')
+        'histories of 2-4 planck_*/Unit.to/flux/vegaflux calls in one process with one argument varied at a time; non-trivial = at least one conversion between two different units')
 
 TOL = 1e-12
 NAMES = ['m', 'meter', 'um', 'micron', 'nm', 'nanometer', 'angstrom', 'photlam', 'flam', 'wlam']
@@ -155,9 +155,9 @@ def rnd_chain(rng, start_wu, start_vu, maxlen, close_p=0.5):
     return args
 
 
-def planck_point(rng, consts):
+def planck_point(rng, consts, temp=None):
     """(wave in metres, temp) with x = hc/(lambda k T) in [0.05, 50]"""
-    temp = float(rng.choice([300, 1000, 2500, 4000, 5772, 9602, 25000]) if rng.random() < 0.6
+    temp = temp if temp is not None else float(rng.choice([300, 1000, 2500, 4000, 5772, 9602, 25000]) if rng.random() < 0.6
                  else round(rng.uniform(150, 30000), 1))
     x = math.exp(rng.uniform(math.log(0.05), math.log(50)))
     hc_k = float(consts['H'] * consts['C'] / consts['K'])
@@ -167,6 +167,9 @@ def planck_point(rng, consts):
 def generate(rng, tier):
     quick = tier == 'quick'
     consts = {'H': Fraction(rad().H), 'C': Fraction(rad().C), 'K': Fraction(rad().K)}
+    # -- call histories first, so that a replay carries its own history
+    for c in seq_cases(rng, quick, consts):
+        yield c
     # -- every pair of accepted wavelength names (model + oracle), every triple of units (oracle)
     for a in WNAMES:
         for b in WNAMES:
@@ -195,6 +198,14 @@ def generate(rng, tier):
         c = {'op': 'chain', 'wu': rcase(rng, rng.choice([w for w in WNAMES if CANON[w] == wu])),
              'vu': rcase(rng, vu) if vu else None, 'wave': rnd_waves(rng, n, wu), 'value': rnd_values(rng, n),
              'args': [rcase(rng, a) for a in rnd_chain(rng, wu, vu, 6)]}
+        if rng.random() < 0.3:        # integer arrays / lists / tuples as input (integral data, nm or angstrom)
+            c['form'] = rng.choice(['int', 'list', 'tuple'])
+            if wu in ('nm', 'angstrom'):
+                base = sorted(rng.sample(range(300, 30000), n))
+                c['wave'] = [float(b) for b in base]
+                c['value'] = [float(rng.randint(0, 5000)) for _ in range(n)]
+            elif c['form'] == 'int':
+                c['form'] = 'list'
         t = rng.random()
         if t < 0.04:
             c['args'].insert(rng.randint(0, len(c['args'])), rng.choice(['furlong', 'jy', 'mm', 'photnu', '']))
@@ -211,6 +222,11 @@ def generate(rng, tier):
                         wave = rnd_waves(rng, n, wu)
                         c = {'op': 'sample', 'wu': wu, 'vu': vu, 'wave': wave, 'value': rnd_values(rng, n),
                              'wb': rcase(rng, wb) if rep else wb, 'mode': mode, 'points': []}
+                        if wu in ('nm', 'angstrom') and rng.random() < 0.3:
+                            c['form'] = rng.choice(['int', 'list', 'tuple'])
+                            c['wave'] = [float(b) for b in sorted(rng.sample(range(300, 30000), n))]
+                            c['value'] = [float(rng.randint(0, 5000)) for _ in range(n)]
+                            wave = c['wave']
                         if mode == 'points':
                             k = float(METRES[wu] / METRES[wb])
                             lo, hi = wave[0] * k, wave[-1] * k
@@ -239,13 +255,17 @@ def generate(rng, tier):
         xs = sorted({round(math.exp(rng.uniform(math.log(0.3), math.log(30))), 3) for _ in range(n)}, reverse=True)
         waves = [float(Fraction(hc_k / (x * temp)) / METRES[CANON[wn]]) for x in xs]
         yield {'op': 'blackbody', 'waves': waves, 'temp': temp, 'wn': rcase(rng, wn), 'vn': rcase(rng, vn),
-               'args': [rcase(rng, a) for a in rnd_chain(rng, CANON[wn], vn, 4, close_p=0.3)]}
+               'args': [rcase(rng, a) for a in rnd_chain(rng, CANON[wn], vn, 4, close_p=0.3)],
+               'samples': [rcase(rng, rng.choice(WNAMES)) for _ in range(rng.randint(1, 3))]}
     # -- vegaflux
     bands = BANDS if not quick else rng.sample(BANDS, 4)
     for band in bands:
         for wn in (WNAMES if not quick else WSHORT):
             for vn in FNAMES:
                 yield {'op': 'vega', 'band': band if rng.random() < 0.7 else band.lower(), 'wn': rcase(rng, wn), 'vn': rcase(rng, vn)}
+    # -- Blackbody.vegamag stars: built in every unit pair, converted, sampled in every wave unit (oracle only)
+    for c in star_cases(rng, quick):
+        yield c
     # -- Blackbody.vegamag (oracle only)
     for k in range(6 if quick else 60):
         wn = rng.choice(WSHORT)
@@ -255,15 +275,103 @@ def generate(rng, tier):
                'mag': float(rng.randint(-1, 12)), 'wn': wn, 'vn': FNAMES[k % 3]}
 
 
+def star_cases(rng, quick):
+    combos = [(wn, vn, su) for wn in WSHORT for vn in FNAMES for su in WSHORT]       # 48: every pair x every sample unit
+    reps = 1 if quick else 6
+    for rep in range(reps):
+        for wn, vn, su in combos:
+            band = rng.choice(BANDS[:8])
+            args = [] if rng.random() < 0.5 else rnd_chain(rng, wn, vn, 3, close_p=0.2)
+            others = [rng.choice(WNAMES) for _ in range(rng.randint(0, 2))]
+            yield {'op': 'vegastar', 'band': band, 'waves': rnd_waves(rng, rng.choice([1, 2, 3]), wn),
+                   'temp': float(rng.choice([4000, 5772, 9602])), 'mag': float(rng.randint(-1, 12)),
+                   'wn': wn, 'vn': vn, 'args': [rcase(rng, a) for a in args],
+                   'samples': [rcase(rng, su)] + [rcase(rng, o) for o in others] + ([su] if others else [])}
+
+
+def seq_cases(rng, quick, consts):
+    """histories of 2-4 calls in one process with one argument varied at a time (state carried between calls,
+    caches keyed on too little); every call is judged on its own by the oracle, the whole history is in the case"""
+    for k in range(36 if quick else 400):
+        kind = ['planck', 'planck', 'factor', 'flux', 'vega'][k % 5]
+        n = rng.randint(2, 4)
+        calls = []
+        if kind == 'planck':
+            wm, temp = planck_point(rng, consts)
+            wn, vn, pk = rng.choice(WNAMES), rng.choice(FNAMES), rng.choice(['radiance', 'exitance'])
+            vary = rng.choice(['wn', 'vn', 'kind', 'wave'])
+            for _ in range(n):
+                calls.append({'op': 'planck', 'kind': pk, 'wave': float(Fraction(wm) / METRES[CANON[wn]]), 'temp': temp,
+                              'wn': rcase(rng, wn), 'vn': rcase(rng, vn)})
+                if vary == 'wn':
+                    wn = rng.choice([w for w in WNAMES if CANON[w] != CANON[wn]])
+                elif vary == 'vn':
+                    vn = rng.choice([v for v in FNAMES if v != vn])
+                elif vary == 'kind':
+                    pk = 'exitance' if pk == 'radiance' else 'radiance'
+                else:
+                    wm, _ = planck_point(rng, consts, temp)
+        elif kind == 'factor':
+            a, b = rng.choice(WNAMES), rng.choice(WNAMES)
+            for _ in range(n):
+                calls.append({'op': 'factor', 'a': rcase(rng, a), 'b': rcase(rng, b)})
+                if rng.random() < 0.5:
+                    a = rng.choice([w for w in WNAMES if CANON[w] != CANON[a]])
+                else:
+                    b = rng.choice([w for w in WNAMES if CANON[w] != CANON[b]])
+        elif kind == 'flux':
+            a, b, cc = rng.choice(FNAMES), rng.choice(FNAMES), rng.choice(FNAMES)
+            f = round(rng.uniform(0.001, 10), 4) * 10.0 ** rng.randint(-10, 10)
+            w = round(rng.uniform(1, 10), 4) * 10.0 ** rng.randint(-8, -5)
+            for _ in range(n):
+                calls.append({'op': 'flux3', 'a': a, 'b': b, 'c': cc, 'flux': f, 'wave': w})
+                t = rng.random()
+                if t < 0.4:
+                    b = rng.choice([v for v in FNAMES if v != b])
+                elif t < 0.7:
+                    a = rng.choice([v for v in FNAMES if v != a])
+                else:
+                    w = w * 10.0
+        else:
+            band, wn, vn = rng.choice(BANDS), rng.choice(WNAMES), rng.choice(FNAMES)
+            for _ in range(n):
+                calls.append({'op': 'vega', 'band': band, 'wn': rcase(rng, wn), 'vn': rcase(rng, vn)})
+                t = rng.random()
+                if t < 0.4:
+                    wn = rng.choice([w for w in WNAMES if CANON[w] != CANON[wn]])
+                elif t < 0.8:
+                    vn = rng.choice([v for v in FNAMES if v != vn])
+                else:
+                    band = rng.choice([x for x in BANDS if x != band])
+        yield {'op': 'seq', 'kind': kind, 'calls': calls}
+
+
+def brief(sc):
+    if sc['op'] == 'planck':
+        return f'planck_{sc["kind"]}({sc["wave"]!r}, {sc["temp"]!r}, {sc["wn"]!r}, {sc["vn"]!r})'
+    if sc['op'] == 'factor':
+        return f'Unit({sc["a"]!r}).to({sc["b"]!r})'
+    if sc['op'] == 'flux3':
+        return f'Unit({sc["a"]!r}).to({sc["flux"]!r}, {sc["b"]!r}, {sc["wave"]!r})'
+    if sc['op'] == 'vega':
+        return f'vegaflux({sc["band"]!r}, {sc["wn"]!r}, {sc["vn"]!r})'
+    return sc['op']
+
+
 def classify(c):
     op = c['op']
     if op == 'chain':
         bad = any(code(a) == 10 for a in c['args']) or (c['vu'] is None and any(fcanon(a) for a in c['args']))
-        return f'chain/{"unitless" if c["vu"] is None else "density"}/len{len(c["args"])}{"/refused" if bad else ""}'
+        return (f'chain/{"unitless" if c["vu"] is None else "density"}/len{len(c["args"])}{"/refused" if bad else ""}'
+                + (f'/{c["form"]}' if c.get('form') else ''))
     if op == 'planck':
         return f'planck/{c["kind"]}'
     if op == 'sample':
-        return f'sample/{"unitless" if c["vu"] is None else "density"}/{c["mode"]}'
+        return f'sample/{"unitless" if c["vu"] is None else "density"}/{c["mode"]}' + (f'/{c["form"]}' if c.get('form') else '')
+    if op == 'vegastar':
+        return 'vegastar/' + ('converted' if c['args'] else 'as-built')
+    if op == 'seq':
+        return f'history/{c["kind"]}/{len(c["calls"])}'
     return op
 
 
@@ -372,6 +480,17 @@ def fl(x):
     return [float(v) for v in np.atleast_1d(np.asarray(x, dtype=float))]
 
 
+def arr(xs, form):
+    """the input data in one of the documented forms: float64 array, integer array, list, tuple"""
+    if form == 'int':
+        return np.array([int(x) for x in xs], dtype=np.int64)
+    if form == 'list':
+        return [float(x) for x in xs]
+    if form == 'tuple':
+        return tuple(float(x) for x in xs)
+    return np.array(xs, dtype=float)
+
+
 def snap(s):
     w, v = fl(s.wave), fl(s.value)
     out = {'wu': s.waveunit, 'vu': s.valueunit, 'wave': w, 'value': v, 'integral': trapz(w, v)}
@@ -385,6 +504,15 @@ def snap(s):
 def run_impl(c):
     R = rad()
     op = c['op']
+    if op == 'seq':
+        # a history starts from a fresh module state (module-level caches are re-initialised), so that what it
+        # shows does not depend on the cases run before it and a replay in a new process reproduces it
+        import importlib
+        try:
+            importlib.reload(R)
+        except Exception:
+            pass
+        return {'results': [run_impl(sc) for sc in c['calls']]}
     try:
         if op == 'factor':
             return {'v': float(R.Unit(c['a']).to(c['b']))}
@@ -398,19 +526,19 @@ def run_impl(c):
             return {'v': float(ab), 'bc': float(R.Unit(b).to(ab, cc, w)), 'ac': float(R.Unit(a).to(f, cc, w)),
                     'ba': float(R.Unit(b).to(ab, a, w)), 'aa': float(R.Unit(a).to(f, a, w))}
         if op == 'chain':
-            s = R.Spectrum(np.array(c['wave'], dtype=float), np.array(c['value'], dtype=float), c['wu'], c['vu'])
+            s = R.Spectrum(arr(c['wave'], c.get('form')), arr(c['value'], c.get('form')), c['wu'], c['vu'])
             steps = [snap(s)]
             for a in c['args']:
                 s.to(a)
                 steps.append(snap(s))
-            s2 = R.Spectrum(np.array(c['wave'], dtype=float), np.array(c['value'], dtype=float), c['wu'], c['vu'])
+            s2 = R.Spectrum(arr(c['wave'], c.get('form')), arr(c['value'], c.get('form')), c['wu'], c['vu'])
             s2.to(*c['args'])
-            s3 = R.Spectrum(np.array(c['wave'], dtype=float), np.array(c['value'], dtype=float), c['wu'], c['vu'])
+            s3 = R.Spectrum(arr(c['wave'], c.get('form')), arr(c['value'], c.get('form')), c['wu'], c['vu'])
             fin = steps[-1]
             s3.to(*([fin['wu']] + ([fin['vu']] if fin['vu'] else [])))
             return {'steps': steps, 'once': snap(s2), 'direct': snap(s3)}
         if op == 'sample':
-            mk = lambda: R.Spectrum(np.array(c['wave'], dtype=float), np.array(c['value'], dtype=float), c['wu'], c['vu'])
+            mk = lambda: R.Spectrum(arr(c['wave'], c.get('form')), arr(c['value'], c.get('form')), c['wu'], c['vu'])
             conv = mk()
             conv.to(c['wb'])
             cs = snap(conv)
@@ -419,6 +547,10 @@ def run_impl(c):
             before = snap(s)
             if c['wb'] == 'nm' and len(c['wave']) % 2 == 0:
                 got = fl(s.sample(pts))                      # waveunit defaults to 'nm'
+            elif len(pts) == 1:
+                got = fl(s.sample(float(pts[0]), waveunit=c['wb']))      # a scalar wavelength
+            elif len(pts) % 2 == 0:
+                got = fl(s.sample([float(x) for x in pts], waveunit=c['wb']))   # a list
             else:
                 got = fl(s.sample(pts, waveunit=c['wb']))
             after = snap(s)
@@ -442,11 +574,49 @@ def run_impl(c):
             fin['direct'] = fl(direct.value)
             fin['sample'] = fl(bb.sample(np.array(fin['wave'], dtype=float), fin['wu']))
             fin['rad0'] = fl(R.planck_radiance(np.array(c['waves'], dtype=float), c['temp'], c['wn'], c['vn']))
+            fin['cross'] = []
+            for su in c.get('samples', []):          # the same object sampled in other wave units, one call after the other
+                pts = np.array(fin['wave'], dtype=float) * truth_factor(fin['wu'], wcanon(su))
+                got = fl(bb.sample(pts, su) if su != 'nm' else bb.sample(pts))
+                now = snap(bb)
+                fin['cross'].append({'unit': su, 'points': fl(pts), 'values': got,
+                                     'direct': fl(R.Blackbody(pts, c['temp'], wcanon(su), fin['vu']).value),
+                                     'untouched': (now['wu'], now['vu'], now['wave'], now['value']) == (fin['wu'], fin['vu'], fin['wave'], fin['value'])})
             return fin
         if op == 'vega':
             f, w = R.vegaflux(c['band'], c['wn'], c['vn'])
             f0, w0 = R.vegaflux(c['band'], 'm', 'photlam')
             return {'flux': float(f), 'wave': float(w), 'si_flux': float(f0), 'si_wave': float(w0)}
+        if op == 'vegastar':
+            w = np.array(c['waves'], dtype=float)
+
+            def mk():
+                st = R.Blackbody.vegamag(w, c['temp'], c['mag'], c['band'], c['wn'], c['vn'])
+                if c['args']:
+                    st.to(*c['args'])
+                return st
+            star = R.Blackbody.vegamag(w, c['temp'], c['mag'], c['band'], c['wn'], c['vn'])
+            out = {'value0': fl(star.value)}
+            if c['args']:
+                star.to(*c['args'])
+            st = snap(star)
+            out['state'] = st
+            e0, w0 = R.vegaflux(c['band'], 'm', 'wlam')
+            wm = np.array(st['wave'], dtype=float) * float(METRES[st['wu']])
+            out['wm'] = fl(wm)
+            out['si_ref'] = fl(e0 * R.planck_exitance(wm, c['temp'], 'm', 'wlam') / R.planck_exitance(w0, c['temp'], 'm', 'wlam')
+                               * 10 ** (-0.4 * c['mag']))
+            out['samples'] = []
+            for su in c['samples']:
+                pts = np.array(st['wave'], dtype=float) * truth_factor(st['wu'], wcanon(su))
+                got = fl(star.sample(pts, waveunit=su) if su != 'nm' else star.sample(pts))
+                now = snap(star)
+                fresh = mk()
+                out['samples'].append({'unit': su, 'points': fl(pts), 'values': got,
+                                       'fresh': fl(fresh.sample(pts, waveunit=su)),
+                                       'direct': fl(R.Blackbody.vegamag(pts, c['temp'], c['mag'], c['band'], wcanon(su), st['vu']).value),
+                                       'untouched': (now['wu'], now['vu'], now['wave'], now['value']) == (st['wu'], st['vu'], st['wave'], st['value'])})
+            return out
         if op == 'vegamag':
             w = np.array(c['waves'], dtype=float)
             a = R.Blackbody.vegamag(w, c['temp'], c['mag'], c['band'], c['wn'], c['vn'])
@@ -517,6 +687,13 @@ def oracle(c, impl):
     R = rad()
     H, Cc, Kb = float(R.H), float(R.C), float(R.K)
     op = c['op']
+    if op == 'seq':
+        for k, (sc, r) in enumerate(zip(c['calls'], impl['results'])):
+            m = oracle(sc, r)
+            if m:
+                hist = '; '.join(brief(x) for x in c['calls'][:k])
+                return f'call {k + 1} of a history in one process' + (f' (after {hist})' if hist else '') + ': ' + m
+        return None
     if op == 'factor':
         a, b = wcanon(c['a']), wcanon(c['b'])
         if a is None or b is None:
@@ -670,6 +847,12 @@ def oracle(c, impl):
                     f'but the Blackbody built in those units at the same wavelengths has {impl["direct"]}')
         if not lclose(impl['sample'], impl['direct'], 1e-11):
             return f'Blackbody.sample after to{tuple(c["args"])} gives {impl["sample"]}, expected {impl["direct"]}'
+        for x in impl.get('cross', []):
+            if not x['untouched']:
+                return f'Blackbody.sample(waveunit={x["unit"]!r}) changed the object itself'
+            if not lclose(x['values'], x['direct'], 1e-11):
+                return (f'a Blackbody held in ({impl["wu"]}, {impl["vu"]}) sampled at {x["points"]} {x["unit"]} gives {x["values"]}; '
+                        f'the Blackbody built in ({wcanon(x["unit"])}, {impl["vu"]}) at those wavelengths has {x["direct"]}')
         return None
     if op == 'vega':
         a, g = wcanon(c['wn']), fcanon(c['vn'])
@@ -682,6 +865,35 @@ def oracle(c, impl):
         if not close(impl['flux'], exp):
             return (f'vegaflux({c["band"]!r}, {c["wn"]!r}, {c["vn"]!r}) = {impl["flux"]!r} is not the SI photon flux '
                     f'{impl["si_flux"]!r} expressed per {a} in {g}: {exp!r}')
+        return None
+    if op == 'vegastar':
+        if 'err' in impl:
+            return f'Blackbody.vegamag(...).to{tuple(c["args"])}/sample raised {impl["err"]}'
+        st = impl['state']
+        wm, ref = impl['wm'], impl['si_ref']
+
+        def expect(wu, vu):
+            m = float(METRES[wu])
+            return [truth_from_wlam_si(r, vu, x, H, Cc) * m for r, x in zip(ref, wm)]
+        if not lclose(impl['value0'], expect(wcanon(c['wn']), fcanon(c['vn'])), 1e-11):
+            return (f'Blackbody.vegamag built in ({c["wn"]}, {c["vn"]}) has values {impl["value0"]}; vegaflux * planck_exitance ratio '
+                    f'in SI expressed in those units is {expect(wcanon(c["wn"]), fcanon(c["vn"]))}')
+        if not lclose(st['value'], expect(st['wu'], st['vu']), 1e-11):
+            return (f'the star built in ({c["wn"]}, {c["vn"]}) after to{tuple(c["args"])} has values {st["value"]} in ({st["wu"]}, {st["vu"]}); '
+                    f'expected {expect(st["wu"], st["vu"])}')
+        for k, x in enumerate(impl['samples']):
+            hist = [y['unit'] for y in impl['samples'][:k]]
+            exp = expect(wcanon(x['unit']), st['vu'])
+            what = (f'star built by Blackbody.vegamag in ({c["wn"]}, {c["vn"]})' + (f', converted with to{tuple(c["args"])}' if c['args'] else '')
+                    + (f', sampled before in {hist}' if hist else '') + f', sampled with waveunit={x["unit"]!r} at {x["points"]}')
+            if not x['untouched']:
+                return what + ': the star itself was changed by sample()'
+            if not lclose(x['values'], exp, 1e-11):
+                return what + f' gives {x["values"]}; the same irradiance expressed in ({wcanon(x["unit"])}, {st["vu"]}) is {exp}'
+            if not lclose(x['values'], x['direct'], 1e-11):
+                return what + f' gives {x["values"]}; a star built directly in ({wcanon(x["unit"])}, {st["vu"]}) has {x["direct"]}'
+            if not lclose(x['values'], x['fresh'], 1e-11):
+                return what + f' gives {x["values"]} but {x["fresh"]} on a freshly built star (state carried between calls)'
         return None
     if op == 'vegamag':
         if 'err' in impl:
